@@ -63,10 +63,14 @@ Exec(prog, env0) ==
 
 \* ---- the serial group formulas (backend/serial/curve_models, edwards.rs, montgomery.rs) -------
 \* inputs: extended point X Y Z T; projective Niels YpX YmX Z2 T2d; affine Niels ypx ymx xy2d
+\* MUTANT = "niels_lazy_double" (kept counterexample, a seeded change of round 3): the cached coordinate is T*d and the formula
+\* doubles the product lazily - algebraically the same, but cZ becomes a sum of four reduced values and is the right-hand
+\* operand of the next multiplication (the 32-bit kernel admits b < 1.75 there)
 AddProjNiels == <<
   Ins("YpX1", "add", "Y", "X"), Ins("YmX1", "sub", "Y", "X"),
   Ins("PP", "mul", "YpX1", "nYpX"), Ins("MM", "mul", "YmX1", "nYmX"),
-  Ins("TT2d", "mul", "T", "nT2d"), Ins("ZZ", "mul", "Z", "nZ"), Ins("ZZ2", "add", "ZZ", "ZZ"),
+  Ins("TT2d", "mul", "T", "nT2d") >> \o (IF MUTANT = "niels_lazy_double" THEN << Ins("TT2d", "add", "TT2d", "TT2d") >> ELSE << >>) \o <<
+  Ins("ZZ", "mul", "Z", "nZ"), Ins("ZZ2", "add", "ZZ", "ZZ"),
   Ins("cX", "sub", "PP", "MM"), Ins("cY", "add", "PP", "MM"), Ins("cZ", "add", "ZZ2", "TT2d"), Ins("cT", "sub", "ZZ2", "TT2d") >>
 SubProjNiels == <<
   Ins("YpX1", "add", "Y", "X"), Ins("YmX1", "sub", "Y", "X"),
@@ -162,7 +166,8 @@ RisElligator == <<
 RisBatchCompress == <<
   Ins("XX", "sq", "X", "X"), Ins("YY", "sq", "Y", "Y"), Ins("ZZ", "sq", "Z", "Z"), Ins("TT", "sq", "T", "T"), Ins("dTT", "mul", "TT", "kC"),
   Ins("y2", "add", "Y", "Y"), Ins("be", "mul", "X", "y2"), Ins("bf", "add", "ZZ", "dTT"), Ins("bg", "add", "YY", "XX"), Ins("bh", "sub", "ZZ", "dTT"),
-  Ins("eg", "mul", "be", "bg"), Ins("fh", "mul", "bf", "bh"), Ins("efgh", "mul", "eg", "fh") >> \o Invert("efgh") \o <<
+  Ins("bg2", IF MUTANT = "batch_factor_on_g" THEN "add" ELSE "cp", "bg", "bg"),      \* kept counterexample: the factor two moved onto g = YY + XX
+  Ins("eg", "mul", "be", "bg2"), Ins("fh", "mul", "bf", "bh"), Ins("efgh", "mul", "eg", "fh") >> \o Invert("efgh") \o <<
   Ins("Zinv", "mul", "eg", "inv"), Ins("Tinv", "mul", "fh", "inv"), Ins("nc1", "mul", "eg", "Zinv"), Ins("me", "neg", "be", "be"), Ins("fs", "mul", "bf", "kC"),
   Ins("e2", "csel", "be", "bg"), Ins("g2", "csel", "bg", "me"), Ins("h2", "csel", "bh", "fs"), Ins("he", "mul", "h2", "e2"), Ins("hez", "mul", "he", "Zinv"),
   Ins("g2", "cneg", "g2", "g2"), Ins("hmg", "sub", "h2", "g2"), Ins("gt", "mul", "g2", "Tinv"), Ins("mgt", "mul", "kC", "gt"), Ins("s", "mul", "hmg", "mgt"),
